@@ -1,6 +1,7 @@
 """C08 configuration for ./check and mkmanifest"""
 CRYPTO = "cryptographic primitives are assumptions (hypotheses of theorems), never axioms"
 CFG = {
+  'ready': True,
   'gens': ['gen_consts.py', 'gen_timing.py'],
   'props_module': 'LdkModel.Props.C08',
   'models': ['c08'],
